@@ -97,6 +97,9 @@ ExecuteOnlyIfReaches == (kind # "" /\ MayExecute) => DiffEmpty(PRun.sig, cur)
 PEmit == (EmitRecords /\ kind # "") =>
            PrintT(<<"REC", ToJson([seq |-> seq, start |-> StartId, final |-> cur,
                                     pert |-> pert, kind |-> kind,
-                                    prediction |-> Prediction, control |-> Control])>>)
+                                    prediction |-> Prediction, control |-> Control,
+                                    \* mutations left after the changed-models filter: with
+                                    \* none left the task has nothing to simulate at all
+                                    npending |-> Len(Pending(pert))])>>)
 PConstraint == PEmit
 =============================================================================
